@@ -275,6 +275,13 @@ def sp_diags(it, diagonals, offsets=0, shape=None, dtype=None, **k):
     from .values import ListCell
 
     d = diagonals.val if isinstance(diagonals, ListCell) else diagonals
+    from .values import Arr as _Arr
+
+    if isinstance(d, _Arr) and offsets == 0 and shape is None:
+        # diags(v): the square matrix with the vector v on its main diagonal
+        vv = d.vec()
+        n_ = vv.n
+        return Mat(n_, n_, lambda i, j: z3.If(_iv(i) == _iv(j), ops._real(vv.f(_iv(i))), z3.RealVal(0)), name=it.path.fresh_name("Dg"))
     if not (isinstance(d, list) and len(d) == 1) or offsets != 0 or shape is None:
         raise Unsupported("sparse.diags form")
     v = d[0]
